@@ -273,3 +273,30 @@ Definition html_wf (remove : list str) : bool := negb (mem_str (s "root") remove
 Definition epub_wf (remove block : list str) : bool :=
   disjoint_str remove block &&
   disjoint_str remove [s "title"; s "table"; s "tr"; s "td"; s "th"].
+
+(* ------------------------------------------------------------------ text of a tree, visible text of an event list *)
+(* _HtmlTextExtractor._get_node_text(node): text, then every child (with its tail), in document order *)
+Fixpoint flat_node (n : node) : str :=
+  match n with
+  | Node _ _ x k tl =>
+      x ++ (fix go (l : list node) : str := match l with [] => [] | c :: r => flat_node c ++ go r end) k ++ tl
+  end.
+
+(* the Data of an event list that lies outside removed elements, concatenated: the same skip machine
+   with a visible state that only accumulates the Data it is shown *)
+Definition t_start (v : str) (_ : str) (_ : attrs_raw) : str := v.
+Definition t_end (v : str) (_ : str) : str := v.
+Definition t_data (v d : str) : str := v ++ d.
+Definition t_init : sk str := mkSk [] O None.
+Definition visible_text (remove void : list str) (l : list event) : str :=
+  vis (run remove void t_start t_end t_data t_init l).
+
+Fixpoint all_data (l : list event) : str :=
+  match l with
+  | [] => []
+  | Data d :: r => d ++ all_data r
+  | _ :: r => all_data r
+  end.
+
+Definition no_removable (remove : list str) (l : list event) : bool :=
+  forallb (fun e => match e with Start g _ => negb (mem_str g remove) | _ => true end) l.
